@@ -245,6 +245,14 @@ def sync_rows(k, site):
         add("dot_len", "..", ["len()"], USIZE)
         add("inspect", "??", ["|v: &%s| { %s; }" % (tw, evs(S))], k)
         add("then_some", "->", ["Some"], Opt(k))
+    elif h == "Ref":
+        K = k[1]
+        t = T(k)
+        add("then_pred", "->", ["|v: %s| { %s; v.p() }" % (t, evs(S))], BOOL)
+        add("dot_p", "..", ["p()"], BOOL)
+        add("then_unit", "->", ["|v: %s| { %s; }" % (t, evs(S))], UNIT)
+        if nameable(K):
+            add("dot_clone", "..", ["clone()"], K)
     else:
         # scalars and tuples
         t = T(k)
@@ -304,3 +312,44 @@ def fmt_expr(kind, expr_var):
     if kind[0] == "Iter":
         return 'format!("{:?}", %s.collect::<Vec<_>>())' % expr_var
     return 'format!("{:?}", %s)' % expr_var
+
+
+# ---------------------------------------------------------------------------------------------
+# wrapper rows: X >>> inner <<<  ==  .x(|v| v inner)
+# ---------------------------------------------------------------------------------------------
+class WRow:
+    __slots__ = ("label", "op", "inner_start", "accept", "pinned")
+
+    def __init__(self, label, op, inner_start, accept, pinned=False):
+        self.label = label
+        self.op = op
+        self.inner_start = inner_start
+        self.accept = accept  # inner end kind -> outer result kind or None
+        self.pinned = pinned
+
+
+def sync_wrapper_rows(k):
+    """wrapper-capable operators applicable to kind k (sync macros)"""
+    rows = []
+    h = k[0]
+    if h in ("Opt", "Res"):
+        K = k[1]
+        if not nameable(K):
+            return rows
+        rows.append(WRow("w_map", "|>", K, lambda e: (h, e) if nameable(e) and depth((h, e)) <= MAXDEPTH else None))
+        rows.append(WRow("w_and_then", "=>", K, lambda e: e if (e[0] == h and nameable(e)) else None))
+        rows.append(WRow("w_inspect", "??", Ref(k), lambda e: k if e == UNIT else None))
+        if h == "Opt":
+            rows.append(WRow("w_filter", "?>", Ref(K), lambda e: k if e == BOOL else None))
+        else:
+            rows.append(WRow("w_or_else", "<=", INT, lambda e: k if e == k else None))
+            rows.append(WRow("w_map_err", "!>", INT, lambda e: k if e == INT else None))
+    elif h == "Iter":
+        K = k[1]
+        rows.append(WRow("w_map", "|>", K, lambda e: Iter(e) if nameable(e) and depth(Iter(e)) <= MAXDEPTH else None))
+        rows.append(WRow("w_filter", "?>", Ref(K), lambda e: k if e == BOOL else None))
+        rows.append(WRow("w_find", "?@", Ref(K), lambda e: Opt(K) if e == BOOL else None))
+        rows.append(WRow("w_partition", "?&!>", Ref(K), lambda e: Tup(Vec(K), Vec(K)) if e == BOOL else None, pinned=True))
+        rows.append(WRow("w_filter_map", "?|>", K, lambda e: Iter(e[1]) if e[0] == "Opt" and nameable(e) else None))
+        rows.append(WRow("w_find_map", "?|>@", K, lambda e: e if e[0] == "Opt" and nameable(e) else None))
+    return rows
